@@ -385,9 +385,10 @@ func rulesC04(w *World, r *Report) {
 				continue
 			}
 			switch {
-			case regexp.MustCompile(`^\(p2 < .*Add\(.*\)\)$`).MatchString(e) || regexp.MustCompile(`^\(p2 < i\d+\)$`).MatchString(e):
+			// (< or <=: assigning the bound to a value that already equals it changes nothing)
+			case regexp.MustCompile(`^\(p2 <=? .*Add\(.*\)\)$`).MatchString(e) || regexp.MustCompile(`^\(p2 <=? i\d+\)$`).MatchString(e):
 				fromTest = iff
-			case regexp.MustCompile(`^\(.* < p3\)$`).MatchString(e) && !strings.Contains(e, "p2"):
+			case regexp.MustCompile(`^\(.* <=? p3\)$`).MatchString(e) && !strings.Contains(e, "p2"):
 				untilTest = iff
 			}
 		}
